@@ -66,8 +66,11 @@ func tr3(c N3, t v3.Vec) N3 {
 	return n
 }
 
-// Nodes2 enumerates the 2D expression trees: depth <= 2 (thorough: unary over depth 2 as well).
-func Nodes2(thorough bool) []N2 {
+// Nodes2 enumerates the 2D expression trees.  level 0: leaves and one operator; level 1: plus six selected
+// unary operators over every one-operator node; level 2: plus EVERY unary operator over every one-operator
+// node and binary operators between one-operator nodes and representative leaves.
+func Nodes2(level int) []N2 {
+	thorough := level >= 1
 	leaves := LeafNodes2()
 	rep := Rep2(leaves)
 	out := append([]N2{}, leaves...)
@@ -122,16 +125,41 @@ func Nodes2(thorough bool) []N2 {
 			if c.Depth != 1 || !strings.Contains(c.Name, "(") {
 				continue
 			}
+			if level >= 2 {
+				for _, u := range us {
+					out = append(out, u.App(c))
+				}
+				continue
+			}
 			for _, u := range sel {
 				out = append(out, u.App(c))
+			}
+		}
+		if level >= 2 {
+			k := 0
+			for _, c := range d1 {
+				if c.Depth != 1 || !strings.Contains(c.Name, "(") {
+					continue
+				}
+				k++
+				if k%5 != 0 {
+					continue
+				}
+				for _, op := range []string{"Union", "Difference", "Intersect"} {
+					for _, b := range bsub[:4] {
+						out = append(out, Bin2(op, Blends()[0], c, b), Bin2(op, Blends()[0], b, c))
+					}
+				}
 			}
 		}
 	}
 	return out
 }
 
-// Nodes3 enumerates the 3D expression trees.
-func Nodes3(thorough bool) []N3 {
+// Nodes3 enumerates the 3D expression trees (levels as Nodes2; level 2 also extrudes every one-operator
+// 2D node with the non-revolving 2D->3D operators).
+func Nodes3(level int) []N3 {
+	thorough := level >= 1
 	leaves := LeafNodes3()
 	rep := Rep3(leaves)
 	l2 := LeafNodes2()
@@ -197,8 +225,41 @@ func Nodes3(thorough bool) []N3 {
 			if c.Depth != 1 {
 				continue
 			}
+			if level >= 2 {
+				for _, u := range us {
+					out = append(out, u.App(c))
+				}
+				continue
+			}
 			for _, u := range sel {
 				out = append(out, u.App(c))
+			}
+		}
+		if level >= 2 {
+			k := 0
+			for _, c := range d1 {
+				if c.Depth != 1 {
+					continue
+				}
+				k++
+				if k%7 != 0 {
+					continue
+				}
+				for _, op := range []string{"Union", "Difference", "Intersect"} {
+					for _, b := range bsub[:4] {
+						out = append(out, Bin3(op, Blends()[0], c, b), Bin3(op, Blends()[0], b, c))
+					}
+				}
+			}
+			for _, c := range Nodes2(0) {
+				if c.Depth != 1 || !strings.Contains(c.Name, "(") {
+					continue
+				}
+				for _, u := range Unary23() {
+					if !u.NeedsRightHalf {
+						out = append(out, u.App(c))
+					}
+				}
 			}
 		}
 	}
